@@ -64,6 +64,49 @@ mod cpp;
 pub mod error;
 pub mod generate;
 
+/// Verification hook H2: the preprocessor on its own (text that need not parse as C), set up
+/// exactly as compile() does it, plus access to the per-line event log of cpp::process().
+#[cfg(cc6502_verif)]
+pub mod verif {
+    pub use crate::cpp::verif_log::{Event, LOG};
+    pub struct Preprocessed {
+        pub text: String,
+        pub mapped_lines: Vec<(String, u32, Option<(String, u32)>)>,
+        pub literal_strings: Vec<String>,
+        pub macros: Vec<(String, Option<String>)>,
+    }
+    pub fn preprocess(
+        src: &str,
+        filename: &str,
+        defines: &[String],
+        include_directories: &[String],
+        query_macros: &[String],
+    ) -> Result<Preprocessed, crate::error::Error> {
+        let mut context = crate::cpp::Context::new(filename);
+        context.include_directories = include_directories.to_vec();
+        for i in defines {
+            let mut s = i.splitn(2, '=');
+            let def = s.next().unwrap();
+            let value = s.next().unwrap_or("1");
+            context.define(def, value);
+        }
+        let mut out = Vec::new();
+        let lines = crate::cpp::process(src.as_bytes(), &mut out, &mut context, false)?;
+        Ok(Preprocessed {
+            text: String::from_utf8_lossy(&out).to_string(),
+            mapped_lines: lines
+                .iter()
+                .map(|l| (l.0.to_string(), l.1, l.2.as_ref().map(|i| (i.0.to_string(), i.1))))
+                .collect(),
+            literal_strings: context.literal_strings.clone(),
+            macros: query_macros
+                .iter()
+                .map(|m| (m.clone(), context.get_macro(m.as_str()).cloned()))
+                .collect(),
+        })
+    }
+}
+
 extern crate pest;
 #[macro_use]
 extern crate pest_derive;
